@@ -60,7 +60,7 @@ def tok_eq_lit(tok, lit):
     return z3.BoolVal(False)
 
 
-def q_asm_roundtrip(env, alias="include", name=None):
+def q_asm_roundtrip(env, alias="include", name=None, part="roundtrip"):
     """alias="exclude": one-byte payloads are assumed to lie outside 0x10..0x16 (the values of the open known finding); "include": no assumption"""
     qr = QResult(name or f"asm_roundtrip_{alias}")
     P = env.P
@@ -265,14 +265,14 @@ def q_asm_roundtrip(env, alias="include", name=None):
         for el in shape:
             k = el[0]
             if k == "op":
-                out.append(OPB[el[1]])
+                out.append(OPS[el[1]])
             elif k in ("push", "pd1", "pd2"):
                 d = payloads[counter[0]]
                 counter[0] += 1
                 out += (bytes([len(d)]) if k == "push" else bytes([0x4c, len(d)]) if k == "pd1" else bytes([0x4d, len(d) & 0xff, len(d) >> 8])) + d
             else:
                 _, code, p, fl = el
-                out.append(OPB[code])
+                out.append(OPS[code])
                 out += ser(p, payloads, counter)
                 if fl is not None:
                     out.append(0x67)
@@ -284,6 +284,12 @@ def q_asm_roundtrip(env, alias="include", name=None):
     shapes = {k: v for k, v in SHAPES.items() if "non-minimal" not in k}
     shapes["one-byte push"] = [("push", 1)]
     shapes["two one-byte pushes and a two-byte push"] = [("push", 1), ("op", "OP_DUP"), ("push", 1), ("push", 2)]
+    # "this holds for all opcodes": every opcode the library names, except those that open / close conditionals or introduce a push
+    # (the library's parser also opens a conditional at OP_VERIF / OP_VERNOTIF)
+    structural = {"OP_IF", "OP_NOTIF", "OP_VERIF", "OP_VERNOTIF", "OP_ELSE", "OP_ENDIF", "OP_PUSHDATA1", "OP_PUSHDATA2", "OP_PUSHDATA4"}
+    shapes["every opcode"] = [("op", nm) for nm in sorted(OPS, key=lambda n: OPS[n]) if nm not in structural]
+    if part == "extended":
+        return run_extended(env, qr, shapes, AM, build, ser, f_to)
     alias_reported = [False]
     for label, shape in shapes.items():
         qr.cases += 1
@@ -392,4 +398,200 @@ def q_asm_roundtrip(env, alias="include", name=None):
                 qr.undecided.append(item["message"] + " — not reproduced natively: " + json.dumps(nat)[:200])
         finish(qr, ex)
     qr.samples.append({"obligation": qr.name, "shapes": list(shapes)})
+    return qr
+
+
+
+def run_extended(env, qr, shapes, AM, build, ser, f_to):
+    """the EXTENDED rendering (Script::to_asm_string_impl(true)) of structured scripts, token by token, vs the reference: a direct push
+    is `OP_PUSH <decimal length> <hex>`, an OP_PUSHDATAn push `<its opcode name> <decimal length> <hex>`, OP_0 its name, conditionals
+    as in the plain rendering, at every nesting depth.  format! is executed here: the template constant of the compiled
+    format_args! (length-prefixed literal pieces, 0xc0 = next argument) is expanded with the Display text of its arguments."""
+    P = env.P
+
+    def m_new_display(ex, a, callee, canon):
+        return Opaque("FmtArg", deref(a[0]))
+
+    def m_arguments_new(ex, a, callee, canon):
+        tpl = a[0]
+        while isinstance(tpl, Ptr):
+            tpl = tpl.get()
+        args = a[1]
+        while isinstance(args, Ptr):
+            args = args.get()
+        return Opaque("FmtArguments", (tpl, list(args.f)))
+
+    def display(ex, v):
+        v = deref(v)
+        while isinstance(v, Ptr):
+            v = deref(v)
+        if isinstance(v, StrV):
+            return list(v.toks)
+        if isinstance(v, Int):
+            c = v.concrete()
+            if c is None:
+                raise Unsupported("Display of a symbolic integer")
+            return [("lit", str(c))]
+        if isinstance(v, Enum) and v.name == "OpCodes":
+            return [("lit", v.variant)]
+        return list(sv(v).toks)
+
+    def m_format(ex, a, callee, canon):
+        fa = deref(a[0])
+        if not (isinstance(fa, Opaque) and fa.tag == "FmtArguments"):
+            raise Unsupported("format of " + repr(fa)[:60])
+        tpl, args = fa.payload
+        if isinstance(tpl, Opaque) and tpl.tag == "bytes_const":
+            raw = tpl.payload
+        else:
+            items = ex.seq_items(ex.bytes_of(tpl))
+            if items is None or any(not z3.is_bv_value(z3.simplify(i)) for i in items):
+                raise Unsupported("format template is not a constant")
+            raw = bytes(z3.simplify(i).as_long() for i in items)
+        toks, i, k = [], 0, 0
+
+        def lit(text):
+            for j, piece in enumerate(text.split(" ")):
+                if j:
+                    toks.append(("sp",))
+                if piece:
+                    # a literal piece glued to the previous token without a space cannot be expressed in the token model
+                    if toks and toks[-1][0] != "sp":
+                        raise Unsupported("format template glues text to an argument without a separating space")
+                    toks.append(("lit", piece))
+        while i < len(raw):
+            b = raw[i]
+            if b == 0:
+                break
+            if b < 0x80:
+                lit(raw[i + 1:i + 1 + b].decode())
+                i += 1 + b
+            elif b == 0xc0:
+                d = display(ex, args[k].payload if isinstance(args[k], Opaque) else args[k])
+                if d and toks and toks[-1][0] != "sp":
+                    raise Unsupported("format template glues an argument to text without a separating space")
+                toks += d
+                k += 1
+                i += 1
+            else:
+                raise Unsupported(f"format template with a placeholder specification ({b:#x})")
+        return StrV(toks)
+
+    def m_must_use(ex, a, callee, canon):
+        return a[0]
+    R = re.compile
+    FM = [(R(r"Argument(<.*>)?::new_display$"), m_new_display), (R(r"^Arguments(<.*>)?::new$"), m_arguments_new), (R(r"^format$|fmt::format$"), m_format), (R(r"^must_use$|hint::must_use$"), m_must_use)]
+
+    def want_tokens(shape, payloads, counter):
+        parts = []
+        for el in shape:
+            k = el[0]
+            if k == "op":
+                parts.append([("lit", el[1])])
+            elif k in ("push", "pd1", "pd2"):
+                d = payloads[counter[0]]
+                counter[0] += 1
+                head = "OP_PUSH" if k == "push" else "OP_PUSHDATA1" if k == "pd1" else "OP_PUSHDATA2"
+                parts.append([("lit", head), ("sp",), ("lit", str(len(d))), ("sp",), ("hex", d)])
+            else:
+                _, code, p_, fl = el
+                sub = [[("lit", code)]]
+                pp = want_tokens(p_, payloads, counter)
+                if pp:
+                    sub.append(pp)
+                if fl is not None:
+                    sub.append([("lit", "OP_ELSE")])
+                    ff = want_tokens(fl, payloads, counter)
+                    if ff:
+                        sub.append(ff)
+                sub.append([("lit", "OP_ENDIF")])
+                parts.append(join(sub))
+        return join(parts)
+
+    def join(parts):
+        out = []
+        for i, p_ in enumerate(parts):
+            if i:
+                out.append(("sp",))
+            out += p_
+        return out
+
+    def render(toks, m=None):
+        out = ""
+        for t in toks:
+            if t[0] == "sp":
+                out += " "
+            elif t[0] == "lit":
+                out += t[1]
+            else:
+                out += bytes((m.eval(b, model_completion=True).as_long() if m is not None else 0) for b in t[1]).hex()
+        return out
+    for label, shape in shapes.items():
+        qr.cases += 1
+        ex = Exec(P, FM + AM + MODELS, max_paths=3000)
+
+        def setup(ex, shape=shape):
+            ctx = Ctx()
+            ctx.payloads = []
+            ctx.script = Struct("Script", [ListV(build(shape, ctx))])
+            return f_to, [Ptr([ctx.script], 0), Bool(True)], ctx
+        orig_const = ex.eval_const
+
+        def eval_const(fr, c, ex=ex, orig_const=orig_const):
+            cs = c.strip()
+            m = re.match(r'^const "((?:[^"\\]|\\.)*)"$', cs)
+            if m:
+                lit = m.group(1).encode().decode("unicode_escape")
+                return Ptr([StrV([("lit", lit)] if lit else [])], 0)
+            m = re.match(r'^const b"((?:[^"\\]|\\.)*)"$', cs)
+            if m:
+                raw = m.group(1).encode().decode("unicode_escape").encode("latin-1")
+                return Ptr([Opaque("bytes_const", raw)], 0)
+            return orig_const(fr, c)
+        ex.eval_const = eval_const
+        try:
+            res = ex.explore(setup)
+        except Unsupported as e:
+            qr.undecided.append(f"extended rendering of [{label}]: {e}")
+            continue
+        for r in res:
+            qr.paths += 1
+            c = r.ctx
+            if r.kind != "ok":
+                qr.undecided.append(f"extended rendering of [{label}]: {r.kind} {getattr(r, 'msg', '')}"[:200])
+                continue
+            try:
+                got = list(sv(r.ret).toks)
+            except Unsupported as e:
+                qr.undecided.append(f"extended rendering of [{label}]: {e}")
+                continue
+            want = want_tokens(shape, c.payloads, [0])
+            same = len(got) == len(want) and all(g[0] == w[0] and (g[0] == "sp" or (g[0] == "lit" and g[1] == w[1]) or (g[0] == "hex" and len(g[1]) == len(w[1]) and all(x.get_id() == y.get_id() for x, y in zip(g[1], w[1])))) for g, w in zip(got, want))
+            qr.queries += 1
+            if same:
+                continue
+            payloads = [bytes([0x21 + (i * 7 + j) % 200 for j in range(len(d))]) for i, d in enumerate(c.payloads)]
+            raw = ser(shape, payloads, [0])
+            sub = {}
+            for d, pv in zip(c.payloads, payloads):
+                for b, v in zip(d, pv):
+                    sub[b.get_id()] = v
+            def conc(toks):
+                out = ""
+                for t in toks:
+                    out += " " if t[0] == "sp" else t[1] if t[0] == "lit" else bytes(sub.get(b.get_id(), 0) for b in t[1]).hex()
+                return out
+            want_text = conc(want)
+            req = {"tx": {"version": 1, "locktime": 0, "inputs": [], "outputs": []}, "ops": [{"op": "asm_roundtrip", "hex": raw.hex()}]}
+            nat = {p_: C.Native.run(req, p_)[0] for p_ in ("debug", "release")}
+            item = {"message": f"extended rendering of [{label}] ({raw.hex()[:60]}): a push is not rendered as '<push opcode> <length> <hex>' (expected '{want_text[:120]}', encoding gives '{conc(got)[:120]}')",
+                    "request": req, "op_index": 0, "expected": {"extended": want_text}, "native": nat}
+            if len(qr.violations) >= MAX_VIOLATIONS:
+                continue
+            if any(v.get("ok", {}).get("extended") != want_text for v in nat.values()):
+                qr.violations.append(item)
+            else:
+                qr.undecided.append(item["message"] + " — not reproduced natively: " + json.dumps(nat)[:200])
+        finish(qr, ex)
+    qr.samples.append({"obligation": qr.name, "shapes": list(shapes), "rendering": "extended"})
     return qr
